@@ -20,13 +20,30 @@ def sh(cmd, cwd=None, env=ENV):
     return p.returncode, p.stdout
 
 
+def stable_sites():
+    """Maps file:line of every run.fail call in the oracles to a key that survives line shifts: file/rule#k."""
+    import glob, re
+    out = {}
+    for f in sorted(glob.glob(os.path.join(VERIF, "sim", "*.go"))):
+        seen = {}
+        for i, l in enumerate(open(f), 1):
+            mm = re.search(r'run\.fail\((\w+|"[A-Z0-9]+"),\s*"([a-z0-9-]+)"', l)
+            if mm and mm.group(1) != '"HARNESS"':
+                rule = mm.group(2)
+                seen[rule] = seen.get(rule, 0) + 1
+                out[os.path.basename(f) + ":" + str(i)] = "%s/%s#%d" % (os.path.basename(f), rule, seen[rule])
+    return out
+
+
 def record_sites(out, who):
     """Accumulates the rule source positions a check reported (line "sites: {...}") in rulelive/SITES.json."""
     path = os.path.join(VERIF, "rulelive", "SITES.json")
     acc = json.load(open(path)) if os.path.exists(path) else {}
     for l in out.split("\n"):
         if l.startswith("sites: "):
+            smap = stable_sites()
             for k, v in json.loads(l[len("sites: "):]).items():
+                k = smap.get(k.rsplit("@", 1)[1], k)
                 e = acc.setdefault(k, dict(count=0, by=[]))
                 e["count"] += v
                 if who not in e["by"] and len(e["by"]) < 8:
